@@ -79,6 +79,11 @@ TABLE = {
             'onResumed drops the prefix covered by resumed.h before resending without renumbering and enable renumbers from a saved copy after zeroing both counters; both negotiation routes (nonza handler and SASL2/bind2 inline) reach them; '
             'the inbound counter changes by exactly 1 for message/presence/iq and 0 for <a/>, <r/> and other nonzas, has two writers, and is what <a/> and <resume/> carry.',
             'History-level statements (exactly the uncovered stanzas are resent for every sequence of sends, acks and losses; counter wrap) need a model of histories and are not decided.', 'DESIGN.md §2 C09'),
+    'C10': ('effect analysis (write set of everything reachable from the negotiation handlers vs must-reset sets of the stream-start / disconnect / close paths, with explicit persistent / set-before-use / consumed-on-use tables) + closed writer sets and must-call on the disconnect paths',
+            'Static: each of the 27 per-connection leaf fields written during negotiation (continuations included) must be reset on every path of handleStart, of the socket restart slots, of _q_socketDisconnected or of closeSession, or be set from the stream features before every use, '
+            'or be consumed where it is used, or be in the persistent table with a reason (found and fixed: bind2Bound leaking into the next attempt); sessionStarted/connected only in openSession whose call sites are last steps; isAuthenticated only in the three authentication continuations; '
+            'every disconnect path clears isAuthenticated and retries or closes the session, which clears, notifies and emits on every path; each new stream resets the listener.',
+            'That a following attempt succeeds, at-most-once per connection under arbitrary server scripts and behaviour at each cut point are history properties over the network: not decided.', 'DESIGN.md §2 C10'),
 }
 
 NOT_APPLICABLE_REASON = 'check not built yet in this session (see DESIGN.md); listed here until qxverif/rules/<id>.py exists'
